@@ -233,6 +233,10 @@ def known_findings(prop):
 
 
 # ------------------------------------------------------------------------------------- evidence
+# evidence / replay files of a run against a scratch copy (VERIF_REPO set: seeded changes) never overwrite those of /repo
+EVDIR = os.path.join(ROOT, "evidence") if REPO == "/repo" else os.path.join(ROOT, ".work", "seed-evidence")
+
+
 class Result:
     """collects what one check run covered and decides the exit code"""
 
@@ -245,7 +249,7 @@ class Result:
         self.violations = []      # (what, replay path)
         self.known_hits = {}      # key -> count
         self.notes = {}
-        for old in glob.glob(os.path.join(ROOT, "evidence", "replay", prop + "-*.ndjson")):
+        for old in glob.glob(os.path.join(EVDIR, "replay", prop + "-*.ndjson")):
             os.remove(old)
 
     def add_mc(self, r, label=None):
@@ -258,7 +262,7 @@ class Result:
             self.cov["samples"].append(x)
 
     def violation(self, what, events):
-        d = os.path.join(ROOT, "evidence", "replay")
+        d = os.path.join(EVDIR, "replay")
         os.makedirs(d, exist_ok=True)
         p = os.path.join(d, "%s-%d.ndjson" % (self.prop, len(self.violations) + 1))
         write_ndjson(p, events)
@@ -275,8 +279,8 @@ class Result:
               "wall_s": round(time.time() - self.t0, 1), "violations": len(self.violations)}
         if not ev["coverage"]["samples"]:
             ev["coverage"]["samples"] = ["(none)"]
-        os.makedirs(os.path.join(ROOT, "evidence"), exist_ok=True)
-        with open(os.path.join(ROOT, "evidence", self.prop + ".json"), "w") as f:
+        os.makedirs(EVDIR, exist_ok=True)
+        with open(os.path.join(EVDIR, self.prop + ".json"), "w") as f:
             json.dump(ev, f, indent=1, sort_keys=True)
             f.write("\n")
         for k, n in sorted(self.known_hits.items()):
